@@ -43,7 +43,8 @@ class Check:
         self.assumptions = []
         self.rule = ""
         self._vkeys = set()
-        self.max_violation_reports = 25
+        self.max_violation_reports = int(os.environ.get('VERIF_MAXREP', '25'))
+        self.discover = os.environ.get("VERIF_DISCOVER")
 
     # ---- bookkeeping
     def count(self, name, n=1):
@@ -61,12 +62,19 @@ class Check:
         self.inconclusive[why] = self.inconclusive.get(why, 0) + n
 
     # ---- violations
-    def violation(self, key, what, replay=None):
+    def violation(self, key, what, replay=None, disc=None):
         """key: dict of classification fields (matched against known findings);
         what: one-line human description; replay: json-able dict to reproduce."""
+        if self.discover and disc is not None:
+            with open(self.discover, "a") as f:
+                f.write(json.dumps({"property": self.pid, "key": key, "what": what, "disc": disc,
+                                    "replay": replay}, default=str) + "\n")
         for f in self.findings:
             m = f.get("match", {})
-            if m and all(_field_match(v, key.get(k)) for k, v in m.items()):
+            if f.get("fid_re"):
+                if not any(re.search(rx, i) for rx in f["fid_re"] for i in (key.get("fids") or [])):
+                    continue
+            if (m or f.get("fid_re")) and all(_field_match(v, key.get(k)) for k, v in m.items()):
                 hit = self.kf_hits.setdefault(f["id"], {"count": 0, "what": f.get("what", ""), "example": what})
                 hit["count"] += 1
                 return "known"
